@@ -549,4 +549,16 @@ Proof.
   apply (clause_scan_panic (snd x) p r cands Hk (Hwf _ Hc) Hs).
 Qed.
 
+(* what decide proposes is undecided *)
+Theorem decide_undecided d :
+  decide U act_ge db pa = Some (Some d) -> pval pa (VSol (pd_cand d)) = None.
+Proof.
+  intro H. unfold decide in H.
+  destruct (dec_groups_spec _ _ _ H (groups_ok_db db)) as [A _].
+  assert (Hd : pd_ok d) by (apply A; [intros d0 E; discriminate E | reflexivity]).
+  destruct Hd as [c [r [cands [vs [Hn [Hk [Hs [He Hp]]]]]]]].
+  assert (Hw : req_wf U c = true) by (apply Hwf; eapply nth_error_In; exact Hn).
+  destruct (clause_scan_cand c _ r cands _ _ _ Hk Hw Hs) as [_ [_ Hu]]. exact Hu.
+Qed.
+
 End Proofs.
